@@ -96,7 +96,9 @@ func (r *Reconnector) Schedule(addr string) {
 func (r *Reconnector) attemptReconnect(addr string) {
 	r.mu.Lock()
 	state, exists := r.states[addr]
-	if !exists || r.closed {
+	// A timer that had already fired when Pause stopped the timers still gets
+	// here: no attempt may start while paused.
+	if !exists || r.closed || r.paused {
 		r.mu.Unlock()
 		return
 	}
@@ -123,6 +125,11 @@ func (r *Reconnector) attemptReconnect(addr string) {
 	}
 
 	if err != nil {
+		// Paused while the attempt was in flight: do not arm a new timer; the
+		// state is kept, exactly as for the entries whose timers Pause stopped.
+		if r.paused {
+			return
+		}
 		// Reschedule if still within limits
 		if r.cfg.MaxAttempts == 0 || state.attempts < r.cfg.MaxAttempts {
 			delay := r.addJitter(state.nextDelay)
